@@ -585,13 +585,14 @@ def run(ctx):
     ctx.assumptions += [
         "the pop order of the Python set `queue` in LogicFormula.propagate is treated as unspecified: theorems hold for every "
         "schedule, the tie replays the observed one",
-        "weight folding is proved for weights exactly 1 / 0; the code folds |p-1| < 1e-12 and p < 1e-12 (probability semiring) "
+        "weight folding is proved exactly for weights 1 / 0 and with explicit perturbation bounds (<= k*delta on any WMC, 2k*delta/(P(e)-k*delta) on conditionals) for the code's approximate thresholds (C06/PropsExtra.v)"
         "or p < 1e-9 (log semiring): generated programs use the exact values",
         "the engine's use of lookup_evidence while grounding queries and ConstraintAD.add's own evidence/weight propagation are "
         "not modelled in Coq; they are covered by the option sweep against the oracle only",
         "probabilities compared at 1e-9 absolute; probability-0 answers are the same observation as unreported ones; errors by class",
     ]
     ctx.prove("C06/Props.v")
+    ctx.prove("C06/PropsExtra.v")
     rng = ctx.rng
     judge = Judge(ctx)
 
